@@ -137,6 +137,8 @@ mut("C20", "ghost-any-axis", E + "FEM/_mesher.py", "mask = np.isin(other_connect
 # ---------------------------------------------------------------- rules added after the first seeded round
 mut("C02", "thermal-thickness-model-dim", E + "Simulations/_thermal.py", "            if self.mesh.dim == 2:\n                thickness = thermalModel.thickness", "            if self.dim == 2:\n                thickness = thermalModel.thickness", "Thermal")
 mut("C17", "history-damage-not-stored", E + "Simulations/_phasefield.py", "            self._Set_solutions(self.ProblemTypes.damage, d_np1)\n            self.__updatedDisplacement = False\n", "", "PhaseField.Solve")
+mut("C20", "claim-lower-ranks-only", E + "FEM/_mesher.py", "*(dict_rank_nodes[r] for r in range(Nproc) if r != rank)", "*(dict_rank_nodes[r] for r in range(Nproc) if r < rank)", "claim")
+mut("C20", "claim-not-recorded", E + "FEM/_mesher.py", "            dict_rank_nodes[rank].update(nodes)\n            Nn += len(nodes)", "            Nn += len(nodes)", "claim")
 mut("C04", "lagrange-col-unscaled", E + "Simulations/Solvers.py", "    A[dofs_Dirichlet, linesDirichlet] = alpha\n", "    A[dofs_Dirichlet, linesDirichlet] = 1.0\n", "__Solver_2")
 mut("C02", "timo2d-shear-sign", E + "FEM/Elems/_beam.py", "            B_e_pg[:, :, 2, idx_rz] -= Nu_pg  # -θ", "            B_e_pg[:, :, 2, idx_rz] += Nu_pg  # -θ", "Get_beam_B_e_pg")
 mut("C01", "eb3d-torsion-on-ry", E + "FEM/Elems/_beam.py", "            B_e_pg[:, :, 1, idx_rx] = dN_e_pg[:, :, 0]  # torsion: drx/dx (Lagrange)", "            B_e_pg[:, :, 1, idx_rx + 1] = dN_e_pg[:, :, 0]  # torsion: drx/dx (Lagrange)", "Get_beam_B_e_pg")
